@@ -28,6 +28,9 @@ C = "DescriptorFormat"
 def run(ctx, ss):
     for r, f in (("C14.1", c14_1), ("C14.3", c14_3), ("C14.4", c14_4), ("C14.5", c14_5), ("C14.6", c14_6), ("C14.7", c14_7)):
         ctx.guard(r, f, ss)
+    # C14.8: rendering is not memoised under a key that leaves out the format in force (shared.py)
+    from .shared import memo_for
+    ctx.guard("C14.8", memo_for, ss, "C14", "C14.8", "a rendering")
 
 
 def _is_config(e: ast.AST) -> bool:
